@@ -17,11 +17,9 @@ git -C "$W" apply "$DEST/patch.diff" || { echo "PATCH DOES NOT APPLY"; git -C /r
 echo "demo clean rc=$RC_CLEAN ($(tail -1 /tmp/demo_clean.out | cut -c1-80)) | demo patched rc=$RC_PATCHED ($(tail -1 /tmp/demo_patched.out | cut -c1-120)) | tests rc=$RC_TESTS ($(head -1 /tmp/seed_tests.out))"
 RES=""
 for P in "$@"; do
-  VERIF_REPO="$W" /venv/bin/python /verif/run_check.py "$P" --tier ${TIER:-quick} >/tmp/seed_check.out 2>/tmp/seed_check.err; rc=$?
+  VERIF_OUT_DIR="$W/_verif_out" VERIF_REPO="$W" /venv/bin/python /verif/run_check.py "$P" --tier ${TIER:-quick} >/tmp/seed_check.out 2>/tmp/seed_check.err; rc=$?
   echo "  $P rc=$rc  $(grep -m1 '^violation' /tmp/seed_check.err | cut -c1-260)"
   RES="$RES $P=$rc"
 done
 git -C /repo worktree remove --force "$W"; rm -rf "$W"
-git -C /verif checkout -- evidence 2>/dev/null
-rm -f /verif/replays/*.json
 echo "{\"seed\": \"$ID\", \"demo_clean_rc\": $RC_CLEAN, \"demo_patched_rc\": $RC_PATCHED, \"repo_tests_rc\": $RC_TESTS, \"checks\": \"$RES\", \"tier\": \"${TIER:-quick}\"}" > "$DEST/confirm.json"
